@@ -47,10 +47,22 @@ type Behav struct {
 	RespErr bool
 	// Stalls: before the n-th call (0-based count of calls made so far) wait this long.
 	Stalls map[int]time.Duration
+	// PerInv gives the healthy runtime loop a per-invocation plan (nil = answer with RespBody).
+	PerInv func(inv *Invocation) *InvBehav
 	// DieAfterInv: the process exits unexpectedly (status 1) once invocation number k has been answered.
 	DieAfterInv int
 	// DieDuringInv: the process exits unexpectedly (status 1) once invocation number k has been dispatched to the runtime.
 	DieDuringInv int
+}
+
+// InvBehav is what the (healthy-loop) runtime does with one invocation.
+type InvBehav struct {
+	Mode       string // "" / "ok": /response with Body; "error": /error; "stall": never answers; "exit": exits with Exit; "oversize" is just a big Body
+	Body       []byte
+	ErrType    string
+	Hdr        map[string]string
+	ExtraPolls int // polls again this many times before answering (must get the same invocation)
+	Exit       int
 }
 
 // InvSpec is one planned invocation.
@@ -63,17 +75,18 @@ type InvSpec struct {
 
 // actorState is engine bookkeeping per actor.
 type actorState struct {
-	a        *Actor
-	b        *Behav
-	pc       int
-	readyAt  time.Duration // stall: not before this fake time
-	stopped  bool          // script ended without healthy continuation
-	dieAfter *int          // next-die: die as soon as the call is parked
-	shutSeen bool
-	exitAt   time.Duration
-	exitCode int
-	exitDue  bool
-	stalled  map[int]bool
+	a          *Actor
+	b          *Behav
+	pc         int
+	readyAt    time.Duration // stall: not before this fake time
+	stopped    bool          // script ended without healthy continuation
+	dieAfter   *int          // next-die: die as soon as the call is parked
+	shutSeen   bool
+	exitAt     time.Duration
+	exitCode   int
+	exitDue    bool
+	stalled    map[int]bool
+	extraPolls map[string]int
 }
 
 // procState is engine bookkeeping per process.
@@ -200,6 +213,35 @@ func (e *Engine) healthyOp(s *actorState) (Op, bool) {
 			return Op{Kind: "exit", N: 1}, true
 		}
 		if a.CurReqID != "" {
+			if s.b.PerInv != nil && a.CurInv != nil {
+				if pb := s.b.PerInv(a.CurInv); pb != nil {
+					if s.extraPolls[a.CurReqID] < pb.ExtraPolls {
+						if s.extraPolls == nil {
+							s.extraPolls = map[string]int{}
+						}
+						s.extraPolls[a.CurReqID]++
+						return Op{Kind: "next"}, true
+					}
+					switch pb.Mode {
+					case "error":
+						h := map[string]string{"__type": pb.ErrType}
+						for k, v := range pb.Hdr {
+							h[k] = v
+						}
+						return Op{Kind: "error", Body: pb.Body, Hdr: h}, true
+					case "stall":
+						return Op{Kind: "stall", D: 100000 * time.Second}, true
+					case "exit":
+						return Op{Kind: "exit", N: pb.Exit}, true
+					default:
+						body := pb.Body
+						if body == nil {
+							body = []byte{}
+						}
+						return Op{Kind: "response", Body: body, Hdr: pb.Hdr}, true
+					}
+				}
+			}
 			if s.b.RespErr {
 				return Op{Kind: "error"}, true
 			}
@@ -326,7 +368,13 @@ func (e *Engine) doOp(s *actorState, op Op, scripted bool) {
 			body = e.respBody(s, op)
 		}
 		et := op.Arg2()
-		a.Error(e.resolveID(a, op.Arg), body, et, op.Hdr)
+		hdr := map[string]string{}
+		for k, v := range op.Hdr {
+			if k != "__type" {
+				hdr[k] = v
+			}
+		}
+		a.Error(e.resolveID(a, op.Arg), body, et, hdr)
 	case "initerror":
 		body := op.Body
 		if body == nil {
